@@ -4,6 +4,7 @@ import (
 	"go/ast"
 	"go/token"
 	"go/types"
+	"strings"
 
 	"golang.org/x/tools/go/cfg"
 
@@ -119,6 +120,11 @@ func c02TrueOn(c *core.Ctx, pkgRel string, fo *types.Func, exact string) (holds,
 			case flow.False:
 				return false, true
 			}
+			// `_, ok := table[param]; return ok` with a package-level set that is never written
+			// after its initialisation: true exactly for the keys of the literal
+			if has, known := c02TableHas(f, id, pid, exact); known {
+				return has, true
+			}
 		}
 		return false, false
 	}
@@ -197,18 +203,22 @@ func c02ValidateSpec(c *core.Ctx, a *c02Anchors, f *flow.Func, vjObj *types.Func
 		c.Violate("R-C02-7", cons+"|every filter spec is built", pos(c, newSpec), "filters.NewSpec is not called from a single loop over the spec's filters")
 		return
 	}
-	loop, isRange := loops[0].(*ast.RangeStmt)
-	if !isRange {
-		c.Undecide("R-C02-7", cons+"|every filter spec is built", pos(c, loops[0]), "the loop around filters.NewSpec is not a range statement")
+	lp := c02LoopOf(f, loops[0])
+	if lp == nil || lp.reverse {
+		c.Undecide("R-C02-7", cons+"|every filter spec is built", pos(c, loops[0]), "the loop around filters.NewSpec is neither a range statement nor `for i := 0; i < len(xs); i++`")
 		return
 	}
-	_, overFilters := d.fieldSel(loop.X, fFilters)
-	rawOK := len(newSpec.Args) == 3 && loop.Value != nil && d.rootObj(newSpec.Args[2]) == c02Obj(f, loop.Value) && c02Obj(f, loop.Value) != nil
+	loop := lp.stmt
+	_, overFilters := d.fieldSel(lp.X, fFilters)
+	rawOK := len(newSpec.Args) == 3 && lp.elem(d, newSpec.Args[2])
+	if lp.indexed {
+		overFilters = overFilters && d.n[lp.key] == 2 && !d.taken[lp.key] // init and post only
+	}
 	c.Check(overFilters && rawOK, "R-C02-7", cons+"|every filter spec is built", pos(c, loop),
 		"range over Spec.Filters, each element handed to filters.NewSpec",
 		"the loop building filter specs does not range over the spec's `filters` list with the element as raw spec: some filters are not validated")
 	// nodes executed inside the loop: its body and the helpers called from it
-	inLoop := func(visit func(n ast.Node) bool) { d.inside(loop.Body, lf, visit) }
+	inLoop := func(visit func(n ast.Node) bool) { d.inside(lp.body, lf, visit) }
 	for _, x := range breaksOut(lf, loop, labelOf(lf.Body, loop)) {
 		if es, ok := x.(*ast.ExprStmt); ok {
 			if call, ok := es.X.(*ast.CallExpr); ok {
@@ -285,6 +295,7 @@ func c02ValidateSpec(c *core.Ctx, a *c02Anchors, f *flow.Func, vjObj *types.Func
 	var resCalls []string // CallKey facts whose False value proves name != END
 	var resEq []string
 	helperBad := ""
+	helperUndecided, resUndecided := false, false
 	inLoop(func(n ast.Node) bool {
 		switch x := n.(type) {
 		case *ast.CallExpr:
@@ -303,6 +314,7 @@ func c02ValidateSpec(c *core.Ctx, a *c02Anchors, f *flow.Func, vjObj *types.Func
 			switch {
 			case !decided:
 				helperBad = "cannot evaluate helper " + fo.Name()
+				helperUndecided = true
 			case holds:
 				resCalls = append(resCalls, f.CallKey(x))
 			default:
@@ -347,19 +359,31 @@ func c02ValidateSpec(c *core.Ctx, a *c02Anchors, f *flow.Func, vjObj *types.Func
 			}
 		}
 	}
+	// the variable an assignment writes: x, or *p with p a name for &x (a recover helper that
+	// receives the address of the error result)
+	errTarget := func(l ast.Expr) types.Object {
+		l = ast.Unparen(l)
+		if st, ok := l.(*ast.StarExpr); ok {
+			if u, ok := d.alias(st.X).(*ast.UnaryExpr); ok && u.Op == token.AND {
+				return c02Obj(f, u.X)
+			}
+			return nil
+		}
+		return c02Obj(f, l)
+	}
 	var badIter *flow.State
 	res := analyze(c, f, flow.Config{
 		NoHavoc: true,
 		Inline:  inlineSamePkg(f, vjObj),
 		OnBlock: func(st *flow.State, b *cfg.Block) {
-			if b.Stmt != ast.Stmt(loop) {
+			if b.Stmt != loop {
 				return
 			}
 			switch b.Kind {
-			case cfg.KindRangeBody:
+			case lp.bodyKind:
 				st.Set(evIn, flow.True)
 				st.Set(evStored, flow.False)
-			case cfg.KindRangeLoop:
+			case lp.backKind:
 				if st.Is(evIn, flow.True) && !st.Is(evStored, flow.True) && badIter == nil {
 					badIter = st
 				}
@@ -380,7 +404,7 @@ func c02ValidateSpec(c *core.Ctx, a *c02Anchors, f *flow.Func, vjObj *types.Func
 			if s == store {
 				st.Set(evStored, flow.True)
 			}
-			if errRes != nil && len(s.Lhs) == 1 && len(s.Rhs) == 1 && c02Obj(f, s.Lhs[0]) == errRes {
+			if errRes != nil && len(s.Lhs) == 1 && len(s.Rhs) == 1 && errTarget(s.Lhs[0]) == errRes {
 				nonNil := false
 				if call, ok := ast.Unparen(s.Rhs[0]).(*ast.CallExpr); ok {
 					switch calleeFull(f, call) {
@@ -445,8 +469,15 @@ func c02ValidateSpec(c *core.Ctx, a *c02Anchors, f *flow.Func, vjObj *types.Func
 	if helperBad != "" {
 		resWhy += " [" + helperBad + "]"
 	}
-	c.Check(badRes == nil, "R-C02-7", cons+"|reserved filter name rejected", pos(c, store),
-		"a spec is registered only after its name was tested against BuiltInFilterEnd", resWhy, witness(badRes)...)
+	if badRes != nil && helperUndecided {
+		c.Undecide("R-C02-7", cons+"|reserved filter name rejected", pos(c, store), "the name is tested with a helper the checker cannot evaluate ("+helperBad+")")
+		badRes = nil
+		resUndecided = true
+	}
+	if !resUndecided {
+		c.Check(badRes == nil, "R-C02-7", cons+"|reserved filter name rejected", pos(c, store),
+			"a spec is registered only after its name was tested against BuiltInFilterEnd", resWhy, witness(badRes)...)
+	}
 	c.Check(badIter == nil, "R-C02-7", cons+"|every accepted filter is registered", pos(c, loop),
 		"every iteration that continues the loop has stored the spec",
 		"an iteration of the filter loop continues without registering the spec: jump validation does not see that filter", witness(badIter)...)
@@ -501,6 +532,13 @@ func isErrType(t types.Type) bool {
 }
 
 // c02ValidateJump decides the shape of the jump validator.
+func keyRender(lp *c02Loop) string {
+	if lp.key == nil {
+		return "?"
+	}
+	return lp.keyR
+}
+
 func c02ValidateJump(c *core.Ctx, a *c02Anchors, f *flow.Func, cons string, isSpecMap func(types.Type) bool) {
 	fd := f.Node.(*ast.FuncDecl)
 	// the jump validator together with the same-package helpers it calls
@@ -630,12 +668,25 @@ func c02ValidateJump(c *core.Ctx, a *c02Anchors, f *flow.Func, cons string, isSp
 	var flowX ast.Expr
 	switch l := outer.(type) {
 	case *ast.RangeStmt:
-		c.Violate("R-C02-7", cons+"|targets counted from later nodes only", pos(c, l), "the node loop of the jump validator runs forwards: when a node's jumps are checked the counter holds the nodes before it, so backward jumps are accepted (at run time they skip every remaining filter and never end the pipeline) and forward jumps are rejected")
+		// forwards only if the node of the iteration is the element the loop is at
+		if lp := c02LoopOf(f, l); lp != nil && (N == d.norm(lp.X)+"["+keyRender(lp)+"]" || (lp.val != nil && strings.HasPrefix(N, f.Render(l.Value)))) {
+			c.Violate("R-C02-7", cons+"|targets counted from later nodes only", pos(c, l), "the node loop of the jump validator runs forwards: when a node's jumps are checked the counter holds the nodes before it, so backward jumps are accepted (at run time they skip every remaining filter and never end the pipeline) and forward jumps are rejected")
+			return
+		}
+		c.Undecide("R-C02-7", cons+"|targets counted from later nodes only", pos(c, l), "the node loop is a range statement whose node is not the element of the iteration; cannot tell the order in which nodes are visited")
 		return
 	case *ast.ForStmt:
 		post, isIncDec := l.Post.(*ast.IncDecStmt)
+		if lp := c02LoopOf(f, l); lp != nil && !lp.reverse {
+			if N == d.norm(lp.X)+"["+keyRender(lp)+"]" {
+				c.Violate("R-C02-7", cons+"|targets counted from later nodes only", pos(c, l), "the node loop of the jump validator runs forwards: when a node's jumps are checked the counter holds the nodes before it, so backward jumps are accepted (at run time they skip every remaining filter and never end the pipeline) and forward jumps are rejected")
+			} else {
+				c.Undecide("R-C02-7", cons+"|targets counted from later nodes only", pos(c, l), "the node loop counts upwards but the node is not flow[i]; cannot tell the order in which nodes are visited")
+			}
+			return
+		}
 		if isIncDec && post.Tok == token.INC {
-			c.Violate("R-C02-7", cons+"|targets counted from later nodes only", pos(c, l), "the node loop of the jump validator runs forwards: when a node's jumps are checked the counter holds the nodes before it, so backward jumps are accepted (at run time they skip every remaining filter and never end the pipeline) and forward jumps are rejected")
+			c.Undecide("R-C02-7", cons+"|targets counted from later nodes only", pos(c, l), "unrecognised upward loop in the jump validator")
 			return
 		}
 		okShape := false
@@ -1105,4 +1156,90 @@ func c02ValidateGlobal(c *core.Ctx, a *c02Anchors) {
 			sprintf("all %d accepting exits validated the %s spec and saw a nil error", n, v.name),
 			"GlobalFilter's Validate can accept a spec although the "+v.name+" spec was not validated or its validation error was dropped: invalid before/after flows are accepted", w...)
 	}
+}
+
+// c02TableHas decides `_, ok := T[param]` (ok is the identifier given) for param == the constant
+// with ExactString exact, when T is a package-level map initialised by a composite literal with
+// constant keys and never assigned, indexed for writing, deleted from or address-taken elsewhere.
+func c02TableHas(f *flow.Func, okID, param *ast.Ident, exact string) (has, known bool) {
+	okObj := c02Obj(f, okID)
+	var table types.Object
+	n := 0
+	ast.Inspect(f.Body, func(x ast.Node) bool {
+		as, isAs := x.(*ast.AssignStmt)
+		if !isAs {
+			return true
+		}
+		for i, l := range as.Lhs {
+			if c02Obj(f, l) != okObj {
+				continue
+			}
+			n++
+			if i == 1 && len(as.Lhs) == 2 && len(as.Rhs) == 1 {
+				if ix, ok := ast.Unparen(as.Rhs[0]).(*ast.IndexExpr); ok && c02Obj(f, ix.Index) == c02Obj(f, param) {
+					table = c02Obj(f, ix.X)
+				}
+			}
+		}
+		return true
+	})
+	v, isVar := table.(*types.Var)
+	if n != 1 || !isVar || v.Parent() != f.Pkg.Types.Scope() {
+		return false, false
+	}
+	if _, isMap := v.Type().Underlying().(*types.Map); !isMap {
+		return false, false
+	}
+	var lit *ast.CompositeLit
+	written := false
+	for _, file := range f.Pkg.Syntax {
+		ast.Inspect(file, func(x ast.Node) bool {
+			switch t := x.(type) {
+			case *ast.ValueSpec:
+				for i, id := range t.Names {
+					if f.Info.Defs[id] == table && i < len(t.Values) {
+						lit, _ = ast.Unparen(t.Values[i]).(*ast.CompositeLit)
+					}
+				}
+			case *ast.AssignStmt:
+				for _, l := range t.Lhs {
+					l = ast.Unparen(l)
+					if ix, ok := l.(*ast.IndexExpr); ok {
+						l = ast.Unparen(ix.X)
+					}
+					if id, ok := l.(*ast.Ident); ok && f.Info.Uses[id] == table {
+						written = true
+					}
+				}
+			case *ast.UnaryExpr:
+				if id, ok := ast.Unparen(t.X).(*ast.Ident); ok && t.Op == token.AND && f.Info.Uses[id] == table {
+					written = true
+				}
+			case *ast.CallExpr:
+				if id, ok := t.Fun.(*ast.Ident); ok && id.Name == "delete" && len(t.Args) > 0 {
+					if a0, ok := ast.Unparen(t.Args[0]).(*ast.Ident); ok && f.Info.Uses[a0] == table {
+						written = true
+					}
+				}
+			}
+			return true
+		})
+	}
+	if lit == nil || written {
+		return false, false
+	}
+	for _, el := range lit.Elts {
+		kv, ok := el.(*ast.KeyValueExpr)
+		if !ok {
+			return false, false
+		}
+		tv := f.Info.Types[kv.Key]
+		if tv.Value == nil {
+			return false, false
+		}
+		if tv.Value.ExactString() == exact {
+			has = true
+		}
+	}
+	return has, true
 }
